@@ -314,6 +314,16 @@ static std::string exec_padic(const Modular<int32_t>& f, const Toks& a) {
         uint64_t e = 0; PAD.eval(e, A);
         return vp::hex_ull(e);
     }
+    if (a.at(0) == "padic_evaldirect") {   // evaldirect<uint64_t>: the coefficients as they are stored (canonical residues)
+        PD_t::Element A = parseVec(f, a.at(2));
+        uint64_t e = 0; PAD.evaldirect(e, A);
+        return vp::hex_ull(e);
+    }
+    if (a.at(0) == "padic_radixdirect") {   // radixdirect with an integral value: exactly n digits, raw storage
+        uint64_t e = strtoull(a.at(2).c_str(), nullptr, 16);
+        PD_t::Element R(3, f.one); PAD.radixdirect(R, e, (uint64_t)num(a.at(3)));
+        return showVec(f, R);
+    }
     if (a.at(0) == "padic_radixn") {   // explicit number of digits
         Integer e; mpz_set_str(e.get_mpz(), a.at(2).c_str(), 16);
         PD_t::Element R; PAD.radix(R, e, (int64_t)num(a.at(3)));
@@ -709,6 +719,14 @@ static void gen_field(Gen& g, const std::string& tier, const std::string& profil
                     g.emit("interpgeom", {g.poly(dg, g.pick_norm_shape()), vp::hex_ll((dg < 0 ? 1 : dg + 1) + (long)g.rng.below(3))});
                 }
                 if (rep % 3 == 0) g.emit("padic_eval64", {g.poly((long)g.rng.below(3), g.pick_norm_shape())});
+                {   // direct conversions: digit counts 0, 1, exactly enough, too few (value mod p^n), more than enough (padding zeros)
+                    uint64_t v = rep < 3 ? (uint64_t)rep : (g.rng.next() >> (rep % 2 ? 8 : 40));
+                    long nd = 1; { Integer q(g.p); while (q <= Integer(v)) { q *= g.p; ++nd; } }
+                    long n = rep % 5 == 0 ? nd : rep % 5 == 1 ? nd + 2 : rep % 5 == 2 ? (nd > 1 ? nd - 1 : 0) : rep % 5 == 3 ? 1 : 0;
+                    g.emit("padic_radixdirect", {vp::hex_ull(v), vp::hex_ll(n)});
+                    long dmaxd = 0; { Integer q(g.p); while (q * g.p < (Integer(1) << 63)) { q *= g.p; ++dmaxd; } }
+                    g.emit("padic_evaldirect", {g.poly(rep == 7 ? -1 : (long)g.rng.below(dmaxd + 1), -1)});
+                }
                 Integer e(0); for (uint64_t k = 1 + g.rng.below(3); k--;) { e <<= 32; e += Integer((uint64_t)(g.rng.next() >> 32)); }
                 if (rep < 3) e = rep;
                 if (e > 0) g.emit("padic_radix", {vp::hex(e.get_mpz())});
